@@ -23,6 +23,7 @@ def spec(f):
 
 __file_spec__ = [AC.__file__, __file__]
 PRUNE_BRANCHES = False
+FINITE_MEMBERSHIP = True  # x in <short constant table> as a finite disjunction (pyvc/expr.py contains)
 INLINE = []
 
 CLASSES = {
@@ -113,7 +114,7 @@ def ext_most_common(e, args, kw, node, st):
                                         z3.And(w1[m] >= 0, w1[m] < w2[m], w2[m] < n, same(x_at(w1[m]), key(m)), same(x_at(w2[m]), key(m)))),
                         patterns=[anchor(m)]))
     st.assume(z3.ForAll([t, u], z3.Implies(z3.And(t >= 0, t < u, u < n, same(x_at(t), x_at(u))), cntof(idx[t]) >= 2),
-                        patterns=[z3.MultiPattern(idx[t], idx[u])]))
+                        patterns=[z3.MultiPattern(leaves(x_at(t))[0], leaves(x_at(u))[0])]))
     for nm, arr in (("CNT_POS", pos), ("CNT_IDX", idx), ("CNT_W1", w1), ("CNT_W2", w2)):
         st.ghost[nm] = VList(L if nm != "CNT_IDX" else n, arr, ("int",))
     return mc
@@ -182,42 +183,23 @@ class _FindPairsBase:
     ensures = []
     modifies = []
     locals = LOCALS
-    callee_variants = {"detect_bph_br_classification": "any", "angle_between_vectors": "any", "detect_cis_trans": "any"}
+    callee_variants = {"angle_between_vectors": "total"}
 
 
-# ---- callee contracts that claim nothing about the result (used by the variants for which the value is irrelevant)
-class bph_any:
-    """detect_bph_br_classification: some Optional[int], no exception, no heap write (verified below: target ...@any)"""
-    target = "detect_bph_br_classification"
-    params = {"donor_residue": "Residue3D", "donor": "Atom", "acceptor": "Atom"}
-    requires = []
-    returns = "opt[int]"
-    raises = []
-    modifies = []
-    ensures = []
-
-
-class angle_any:
-    """angle_between_vectors: some real number (verified below: target ...@any); a zero vector may raise"""
+class angle_total:
+    """angle_between_vectors without a precondition: for two non-zero vectors the angle (as contracts/annotator_c.py angle_c),
+    ZeroDivisionError only for a zero vector (A-real reading of the division; numpy itself would return nan)"""
     target = "angle_between_vectors"
     params = {"v1": "vec3", "v2": "vec3"}
     requires = []
     returns = "real"
-    raises = ["ZeroDivisionError"]
+    raises = {"ZeroDivisionError": "not (dot3(v1, v1) > 0 and dot3(v2, v2) > 0)"}
+    raises_exact = ("ZeroDivisionError",)
+    nonnull_params = True  # an Optional argument must be shown not to be None at the call site (obligation there)
     modifies = []
-    ensures = []
-
-
-class cis_trans_any:
-    """detect_cis_trans: some Optional[str], no exception, no heap write (verified below: target ...@any)"""
-    target = "detect_cis_trans"
-    params = {"residue_i": "Residue3D", "residue_j": "Residue3D"}
-    requires = []
-    returns = "opt[str]"
-    raises = []
-    modifies = []
-    ensures = []
-    callee_variants = {}
+    ghost_entry = ["use vangle_definition(v1, v2)"]
+    ensures = ["implies(dot3(v1, v1) > 0 and dot3(v2, v2) > 0, result == vangle(v1, v2))"]
+    ensures_labels = {0: "angle-is-arccos-of-normalised-dot-product"}
 
 
 # ---------------------------------------------------------------------------------------------------------------------
@@ -225,8 +207,9 @@ class cis_trans_any:
 # ---------------------------------------------------------------------------------------------------------------------
 @spec
 def glyc(r):
-    """name of the base atom bonded to C1': N9 for purines (A, G), N1 otherwise"""
-    return ite(r.one_letter_name == "A" or r.one_letter_name == "G", "N9", "N1")
+    """name of the base atom bonded to C1': N9 for the purines A, G, N1 otherwise (`in "AG"` is Python's substring test: for a
+    one-letter name exactly "is A or G"; names that are not one letter long get whatever the substring test says)"""
+    return ite(r.one_letter_name in "AG", "N9", "N1")
 
 
 @spec
@@ -248,7 +231,7 @@ def nglyc(r):
 class detect_cis_trans_c:
     target = "detect_cis_trans"
     params = {"residue_i": "Residue3D", "residue_j": "Residue3D"}
-    requires = ["len(residue_i.one_letter_name) == 1 and len(residue_j.one_letter_name) == 1"]
+    requires = []
     returns = "opt[str]"
     raises = []
     modifies = []
@@ -297,6 +280,12 @@ def takes(P, L):
             or (P[0] == L[1] and P[3] == L[4]) or (P[1] == L[1] and P[4] == L[4]))
 
 
+_TW = "(0 <= t and t < u and u < len(labels) and same_label(labels[t], labels[u]))"
+_U = "CNT_IDX[t]"
+_K1, _K2 = f"(MC[{_U}][0][0], MC[{_U}][0][3])", f"(MC[{_U}][0][1], MC[{_U}][0][4])"
+_WIT = f"ite(0 <= REP[{_U}] and REP[{_U}] < len(base_base_pairs) and SRC8[REP[{_U}]] == {_U}, REP[{_U}], ite({_K1} in occupied, OCC[{_K1}], OCC[{_K2}]))"
+
+
 class find_pairs_greedy(_FindPairsBase):
     """Ghost state: PL[k] = the label from which base_base_pairs[k] was made; SRC8[k] = its index in the most_common() list MC;
     REP[u] = index in base_base_pairs of the pair made from entry u of MC (-1: none); OCC[(r, e)] = index of the reported pair
@@ -329,6 +318,11 @@ class find_pairs_greedy(_FindPairsBase):
          "do": ["let OCC = dstore(dstore(OCC, (residue_i, edge_i), len(PL)), (residue_j, edge_j), len(PL))",
                 "let REP = dstore(REP, m, len(PL))", "let SRC8 = snoc(SRC8, m)", "let PL = snoc(PL, interaction)"]},
     ]
+    ghost.append(
+        {"when": "before", "at": "base_pairs = []", "label": "maximality-witness", "do": [
+            f"forall t, u | assert implies({_TW}, 0 <= {_U} and {_U} < len(MC) and MC[{_U}][1] >= 2 and same_label(MC[{_U}][0], labels[t]))"
+            f" | assert implies({_TW}, 0 <= {_WIT} and {_WIT} < len(base_base_pairs) and (same_label(PL[{_WIT}], labels[t]) or takes(PL[{_WIT}], labels[t])))"
+            f" | assert implies({_TW}, exists(lambda k: 0 <= k and k < len(base_base_pairs) and (same_label(PL[k], labels[t]) or takes(PL[k], labels[t]))))"]})
     stop_ensures = [
         # SOUNDNESS of the count: a reported pair is a label that occurs at two different positions of `labels`
         "len(PL) == len(base_base_pairs) and forall(lambda k: implies(0 <= k and k < len(base_base_pairs), "
@@ -344,14 +338,430 @@ class find_pairs_greedy(_FindPairsBase):
                            2: "every-label-occurring-twice-is-reported-or-has-an-edge-taken"}
 
 
+# ---------------------------------------------------------------------------------------------------------------------
+# PHASE 2 (labelling loop): every label comes from one recorded hydrogen bond, for EVERY list `hydrogen_bonds`
+# ---------------------------------------------------------------------------------------------------------------------
+# pinned edge table (spec/tables.py), flattened to (base, atom name, edge letter) triples
+EDGE_TRIPLES = [(b, a, ch) for b, tab in T.BASE_EDGES.items() for a, es in tab.items() for ch in es]
+SPEC_CONSTS["EDGE_TRIPLES"] = EDGE_TRIPLES
+
+
+@spec
+def on_edge(r, a, e):
+    """the pinned Leontis-Westhof edge table assigns edge e to atom a of a residue with the base of r"""
+    return (r.one_letter_name, a.name, e) in EDGE_TRIPLES
+
+
+@spec
+def cis_ok(ri, rj, c):
+    """c is the letter that detect_cis_trans is proved to return for (ri, rj): both glycosidic frames exist, and the letter is
+    'c' when the torsion C1'-N1/N9 ... N1/N9-C1' is inside (-90, 90) degrees, 't' when it is outside [-90, 90] (EPS-sandwich)"""
+    return (has_glyc_frame(ri) and has_glyc_frame(rj) and (c == 'c' or c == 't')
+            and implies(cis_torsion(c1p(ri), nglyc(ri), nglyc(rj), c1p(rj)), c == 'c')
+            and implies(trans_torsion(c1p(ri), nglyc(ri), nglyc(rj), c1p(rj)), c == 't'))
+
+
+@spec
+def lab_ok(L, hb):
+    """label L = (lower residue, higher residue, letter, edge of lower, edge of higher) is derived from the recorded hydrogen
+    bond hb = (atom_i, atom_j, residue_i, residue_j)"""
+    return cis_ok(hb[2], hb[3], L[2]) and ite(res_lt(hb[2], hb[3]),
+                                              L[0] == hb[2] and L[1] == hb[3] and on_edge(hb[2], hb[0], L[3]) and on_edge(hb[3], hb[1], L[4]),
+                                              L[0] == hb[3] and L[1] == hb[2] and on_edge(hb[3], hb[1], L[3]) and on_edge(hb[2], hb[0], L[4]))
+
+
+@spec
+def distinct_chars(s):
+    return forall(lambda a, b: implies(0 <= a and a < b and b < len(s), char(s, a) != char(s, b)))
+
+
+_LEN3 = "0 <= len(labels) and len(SRC3) == len(labels) and len(E1) == len(labels) and len(E2) == len(labels)"
+_ORD3 = ("forall(lambda t, u: implies(0 <= t and t < u and u < len(labels), SRC3[t] <= SRC3[u] "
+         "and implies(SRC3[t] == SRC3[u], labels[t][3] != labels[u][3] or labels[t][4] != labels[u][4])))")
+_OK3 = lambda bound: f"forall(lambda t: implies(0 <= t and t < len(labels), 0 <= SRC3[t] and SRC3[t] {bound} and lab_ok(labels[t], hydrogen_bonds[SRC3[t]])))"
+# labels made so far from the current hydrogen bond: which characters of the two edge strings they carry
+_CUR = lambda lim, c3, c4: (f"forall(lambda t: implies(0 <= t and t < len(labels) and SRC3[t] == h, 0 <= E1[t] and 0 <= E2[t] and E2[t] < len(edges_j) and {lim} "
+                            f"and labels[t][3] == {c3} and labels[t][4] == {c4}))")
+_CI, _CJ = "char(edges_i, E1[t])", "char(edges_j, E2[t])"
+_L3 = {0: "lengths", 1: "every-label-comes-from-a-recorded-hydrogen-bond", 2: "one-hydrogen-bond-never-yields-the-same-label-twice", 3: "labels-of-the-current-hydrogen-bond"}
+
+
+class find_pairs_labels(_FindPairsBase):
+    """Ghost state: SRC3[t] = index in hydrogen_bonds of the bond from which labels[t] was made; E1[t], E2[t] = positions in the
+    edge strings of atom_i / atom_j of the characters labels[t] carries."""
+    stop_before = "base_base_pairs = []"
+    raises = ANY_EXC
+    loops = {
+        0: [], 1: [], 2: [],
+        3: {"index": "h", "labels": _L3, "inv": [_LEN3, _OK3("< h"), _ORD3]},
+        4: {"index": "p4", "labels": _L3, "inv": [_LEN3, _OK3("<= h"), _ORD3, _CUR("E1[t] < p4", _CI, _CJ)]},
+        5: {"index": "p5", "labels": _L3, "inv": [_LEN3, _OK3("<= h"), _ORD3, _CUR("(E1[t] < p4 or (E1[t] == p4 and E2[t] < p5))", _CI, _CJ)]},
+        6: {"index": "p6", "labels": _L3, "inv": [_LEN3, _OK3("<= h"), _ORD3, _CUR("E1[t] < p6", _CJ, _CI)]},
+        7: {"index": "p7", "labels": _L3, "inv": [_LEN3, _OK3("<= h"), _ORD3, _CUR("(E1[t] < p6 or (E1[t] == p6 and E2[t] < p7))", _CJ, _CI)]},
+    }
+    ghost = [
+        {"when": "after", "at": "labels = []", "label": "ghost-init", "do": ["let SRC3 = empty('list[int]')", "let E1 = empty('list[int]')", "let E2 = empty('list[int]')"]},
+        {"when": "before", "at": "for edge_i in edges_i", "label": "edge-strings-have-distinct-letters",
+         "do": ["assert distinct_chars(edges_i) and distinct_chars(edges_j)",
+                "assert forall(lambda a: implies(0 <= a and a < len(edges_i), on_edge(residue_i, atom_i, char(edges_i, a)))) "
+                "and forall(lambda a: implies(0 <= a and a < len(edges_j), on_edge(residue_j, atom_j, char(edges_j, a))))",
+                "assert cis_ok(residue_i, residue_j, cis_trans)"]},
+        {"when": "after", "at": "labels.append((residue_i, residue_j", "label": "record-label",
+         "do": ["let SRC3 = snoc(SRC3, h)", "let E1 = snoc(E1, p4)", "let E2 = snoc(E2, p5)"]},
+        {"when": "after", "at": "labels.append((residue_j, residue_i", "label": "record-label-swapped",
+         "do": ["let SRC3 = snoc(SRC3, h)", "let E1 = snoc(E1, p6)", "let E2 = snoc(E2, p7)"]},
+    ]
+    stop_ensures = [
+        "len(SRC3) == len(labels) and forall(lambda t: implies(0 <= t and t < len(labels), 0 <= SRC3[t] and SRC3[t] < len(hydrogen_bonds) "
+        "and lab_ok(labels[t], hydrogen_bonds[SRC3[t]])))",
+        "forall(lambda t, u: implies(0 <= t and t < u and u < len(labels) and same_label(labels[t], labels[u]), SRC3[t] != SRC3[u]))",
+    ]
+    stop_ensures_labels = {0: "every-label-comes-from-a-recorded-hydrogen-bond(edges-of-the-pinned-table,lower-residue-first,cis-trans-letter)",
+                           1: "two-occurrences-of-a-label-come-from-two-different-hydrogen-bonds"}
+
+
+# ---- PHASE 2, completeness half: every (edge, edge) combination that the pinned table gives a recorded hydrogen bond has its label
+@spec
+def lab_has(L, hb, e1, e2):
+    """L is the label of hydrogen bond hb for edge e1 of atom_i's residue and edge e2 of atom_j's residue (lower residue first)"""
+    return ite(res_lt(hb[2], hb[3]), L[0] == hb[2] and L[1] == hb[3] and L[3] == e1 and L[4] == e2,
+               L[0] == hb[3] and L[1] == hb[2] and L[3] == e2 and L[4] == e1)
+
+
+@spec
+def demand(hb, e1, e2):
+    """a label is demanded: both atoms are on the named edges (pinned table) and both glycosidic frames exist"""
+    return on_edge(hb[2], hb[0], e1) and on_edge(hb[3], hb[1], e2) and has_glyc_frame(hb[2]) and has_glyc_frame(hb[3])
+
+
+@spec
+def lp_ok(labels, SRC3, LP, hydrogen_bonds, g, e1, e2):
+    return (0 <= LP[g, e1, e2] and LP[g, e1, e2] < len(labels) and SRC3[LP[g, e1, e2]] == g
+            and lab_has(labels[LP[g, e1, e2]], hydrogen_bonds[g], e1, e2))
+
+
+_LPA = "labels, SRC3, LP, hydrogen_bonds"
+_LEN3C = "0 <= len(labels) and len(SRC3) == len(labels)"
+_DONE3 = (f"forall(lambda g, e1, e2: implies(0 <= g and g < h and demand(hydrogen_bonds[g], e1, e2), lp_ok({_LPA}, g, e1, e2)), "
+          "sorts={'e1': 'str', 'e2': 'str'})")
+# (edge strings have at most two letters - ghost assert below - so the positions a, b are enumerated instead of quantified)
+_CURC = lambda cond: " and ".join(f"implies({b} < len(edges_j) and {cond(a, b)}, lp_ok({_LPA}, h, char(edges_i, {a}), char(edges_j, {b})))"
+                                  for a in (0, 1) for b in (0, 1))
+_L3C = {0: "lengths", 1: "every-demanded-label-of-the-processed-bonds-is-present", 2: "labels-of-the-current-bond-made-so-far"}
+
+
+class find_pairs_labels_complete(_FindPairsBase):
+    """Ghost state: SRC3 as in find_pairs@labels; LP[(g, e1, e2)] = position in `labels` of the label of bond g for edges e1, e2."""
+    stop_before = "base_base_pairs = []"
+    raises = ANY_EXC
+    loops = {
+        0: [], 1: [], 2: [],
+        3: {"index": "h", "labels": _L3C, "inv": [_LEN3C, _DONE3]},
+        4: {"index": "p4", "labels": _L3C, "inv": [_LEN3C, _DONE3, _CURC(lambda a, b: f"{a} < p4")]},
+        5: {"index": "p5", "labels": _L3C, "inv": [_LEN3C, _DONE3, _CURC(lambda a, b: f"({a} < p4 or ({a} == p4 and {b} < p5))")]},
+        6: {"index": "p6", "labels": _L3C, "inv": [_LEN3C, _DONE3, _CURC(lambda a, b: f"{a} < p6")]},
+        7: {"index": "p7", "labels": _L3C, "inv": [_LEN3C, _DONE3, _CURC(lambda a, b: f"({a} < p6 or ({a} == p6 and {b} < p7))")]},
+    }
+    ghost = [
+        {"when": "after", "at": "labels = []", "label": "ghost-init", "do": ["let SRC3 = empty('list[int]')", "let LP = empty('dict[tuple[int,str,str],int]')"]},
+        {"when": "before", "at": "continue", "loop": 3, "label": "a-skipped-bond-demands-no-label",
+         "do": ["assert forall(lambda e1, e2: not demand(hydrogen_bonds[h], e1, e2), sorts={'e1': 'str', 'e2': 'str'})"]},
+        {"when": "before", "at": "for edge_i in edges_i", "label": "the-code's-edge-strings-cover-the-pinned-table",
+         "do": ["assert forall(lambda e: implies(on_edge(residue_i, atom_i, e), e == char(edges_i, 0) or (1 < len(edges_i) and e == char(edges_i, 1))), sorts={'e': 'str'})",
+                "assert forall(lambda e: implies(on_edge(residue_j, atom_j, e), e == char(edges_j, 0) or (1 < len(edges_j) and e == char(edges_j, 1))), sorts={'e': 'str'})",
+                "assert distinct_chars(edges_i) and distinct_chars(edges_j) and 1 <= len(edges_i) and len(edges_i) <= 2 and 1 <= len(edges_j) and len(edges_j) <= 2"]},
+        {"when": "after", "at": "labels.append((residue_i, residue_j", "label": "record-label",
+         "do": ["let LP = dstore(LP, (h, edge_i, edge_j), len(SRC3))", "let SRC3 = snoc(SRC3, h)"]},
+        {"when": "after", "at": "labels.append((residue_j, residue_i", "label": "record-label-swapped",
+         "do": ["let LP = dstore(LP, (h, edge_i, edge_j), len(SRC3))", "let SRC3 = snoc(SRC3, h)"]},
+    ]
+    stop_ensures = [
+        # witness form of "... there is a position t of `labels` with SRC3[t] == g holding that label": t = LP[g, e1, e2]
+        f"forall(lambda g, e1, e2: implies(0 <= g and g < len(hydrogen_bonds) and demand(hydrogen_bonds[g], e1, e2), lp_ok({_LPA}, g, e1, e2)), "
+        "sorts={'e1': 'str', 'e2': 'str'})",
+    ]
+    stop_ensures_labels = {0: "every-edge-combination-of-a-recorded-hydrogen-bond-has-its-label"}
+
+
+# ---------------------------------------------------------------------------------------------------------------------
+# PHASE 0 / 4 (atom table): row k of `coordinates` <-> (residue, atom name); every (residue, atom) is listed once
+# ---------------------------------------------------------------------------------------------------------------------
+SPEC_CONSTS.update({
+    "ACC_PAIRS": [(b, n) for b, ns in T.BASE_ACCEPTORS.items() for n in ns],
+    "DON_PAIRS": [(b, n) for b, ns in T.BASE_DONORS.items() for n in ns],
+    "RIBOSE_OX": list(T.RIBOSE_ACCEPTORS), "PHOSPHATE_OX": list(T.PHOSPHATE_ACCEPTORS),
+    "D_HB": T.HBOND_MAX, "ANG_LO": T.HBOND_ANGLE[0], "ANG_HI": T.HBOND_ANGLE[1],
+})
+
+
+@spec
+def in_model(r, model):
+    """the residue belongs to the analysed model (all residues when no model is given)"""
+    return is_none(model) or r.model == model
+
+
+@spec
+def is_acc(r, n):
+    """pinned tables: n names an acceptor atom of residue r (base acceptor of its base, ribose or phosphate oxygen)"""
+    return (r.one_letter_name, n) in ACC_PAIRS or n in RIBOSE_OX or n in PHOSPHATE_OX
+
+
+@spec
+def is_don(r, n):
+    """pinned table: n names a donor atom of the base of residue r"""
+    return (r.one_letter_name, n) in DON_PAIRS
+
+
+@spec
+def named_atom(r, n):
+    """the atom of r called n (the first one of that name, as Residue3D.find_atom is proved to return)"""
+    return r.atoms[first_idx(r, n)]
+
+
+@spec
+def xyz_of(a):
+    return (a.x, a.y, a.z)
+
+
+@spec
+def row_is(S, model, GA, GN, coordinates, k):
+    """row k of the table stands for the atom named GN[k] (a listed donor / acceptor name) of residue S[GA[k]] of the model"""
+    return (0 <= GA[k] and GA[k] < len(S) and in_model(S[GA[k]], model) and (is_acc(S[GA[k]], GN[k]) or is_don(S[GA[k]], GN[k]))
+            and 0 <= first_idx(S[GA[k]], GN[k]) and first_idx(S[GA[k]], GN[k]) < len(S[GA[k]].atoms)
+            and named_atom(S[GA[k]], GN[k]).name == GN[k]
+            and coordinates[k] == xyz_of(named_atom(S[GA[k]], GN[k])))
+
+
+@spec
+def row_maps(S, GA, GN, coordinates, amap, tmap_, rmap, k):
+    """the three coordinate-keyed dictionaries map the coordinates of row k to its atom, its type ("acceptor" when the name is an
+    acceptor name, else "donor") and its residue"""
+    return (coordinates[k] in amap and amap[coordinates[k]] == named_atom(S[GA[k]], GN[k])
+            and coordinates[k] in tmap_ and tmap_[coordinates[k]] == ite(is_acc(S[GA[k]], GN[k]), "acceptor", "donor")
+            and coordinates[k] in rmap and rmap[coordinates[k]] == S[GA[k]])
+
+
+@spec
+def row_ok(S, model, GA, GN, coordinates, amap, tmap_, rmap, k):
+    return row_is(S, model, GA, GN, coordinates, k) and row_maps(S, GA, GN, coordinates, amap, tmap_, rmap, k)
+
+
+_S = "structure.residues"
+_ROW = lambda k: f"row_ok({_S}, model, GA, GN, coordinates, coordinates_atom_map, coordinates_type_map, coordinates_residue_map, {k})"
+# distinct atoms of the residues of the analysed model have distinct coordinates (the coordinate-keyed dictionaries lose rows otherwise)
+REQ_DISTINCT = (f"forall(lambda a, b, p, q: implies(0 <= a and a < len({_S}) and 0 <= b and b < len({_S}) and in_model({_S}[a], model) and in_model({_S}[b], model) "
+                f"and 0 <= p and p < len({_S}[a].atoms) and 0 <= q and q < len({_S}[b].atoms) and (a != b or p != q), "
+                f"xyz_of({_S}[a].atoms[p]) != xyz_of({_S}[b].atoms[q])), pats=[['{_S}[a].atoms[p].x', '{_S}[b].atoms[q].x']])")
+_ORD = "ORD"
+_T_LEN = "0 <= len(coordinates) and len(GA) == len(coordinates) and len(GN) == len(coordinates) and len(GQ) == len(coordinates)"
+_RIS = lambda k: f"row_is({_S}, model, GA, GN, coordinates, {k})"
+_T_ROWS0 = f"forall(lambda k: implies(0 <= k and k < len(coordinates), {_RIS('k')} and GA[k] < a), pats=['GA[k]'])"
+_T_ROWS1 = (f"forall(lambda k: implies(0 <= k and k < len(coordinates), {_RIS('k')} and GA[k] <= a "
+            f"and implies(GA[k] == a, 0 <= GQ[k] and GQ[k] < kk and GN[k] == {_ORD}[GQ[k]])), pats=['GA[k]'])")
+_T_MAPS = (f"forall(lambda k: implies(0 <= k and k < len(coordinates), row_maps({_S}, GA, GN, coordinates, coordinates_atom_map, coordinates_type_map, "
+           "coordinates_residue_map, k)), pats=['GA[k]'])")
+_T_ORDER = "forall(lambda k, w: implies(0 <= k and k < w and w < len(coordinates), GA[k] < GA[w] or (GA[k] == GA[w] and GQ[k] < GQ[w])), pats=[['GA[k]', 'GA[w]']])"
+_T_DISTXYZ = "forall(lambda k, w: implies(0 <= k and k < w and w < len(coordinates), coordinates[k] != coordinates[w]), pats=[['coordinates[k][0]', 'coordinates[w][0]']])"
+_T_ONCE = "forall(lambda k, w: implies(0 <= k and k < w and w < len(coordinates), not (GA[k] == GA[w] and GN[k] == GN[w])), pats=[['GA[k]', 'GA[w]']])"
+_T_LAB = {0: "lengths", 1: "rows-are-listed-atoms-of-the-model", 2: "dictionaries-map-row-coordinates-to-the-row", 3: "rows-in-structure-order",
+          4: "rows-have-distinct-coordinates", 5: "each-(residue,atom)-listed-once"}
+_TABLE_GHOST = [
+    {"when": "after", "at": "coordinates = []", "label": "ghost-init",
+     "do": ["let GA = empty('list[int]')", "let GN = empty('list[str]')", "let GQ = empty('list[int]')"]},
+    {"when": "after", "at": "donors = ", "label": "code-tables-equal-pinned-tables",
+     "do": ["assert forall(lambda n: (n in acceptors) == is_acc(residue, n), sorts={'n': 'str'})",
+            "assert forall(lambda n: (n in donors) == is_don(residue, n), sorts={'n': 'str'})"]},
+    {"when": "after", "at": "atom = residue.find_atom(", "label": "iterated-name-is-a-listed-name",
+     "do": ["use first_idx_definition(residue, atom_name)", "assert atom_name in acceptors or atom_name in donors"]},
+    {"when": "after", "at": "atom = residue.find_atom(", "label": "each-atom-name-of-a-residue-is-visited-once",
+     "do": [f"assert forall(lambda q: implies(0 <= q and q < kk, {_ORD}[q] != atom_name))"]},
+    {"when": "before", "at": "coordinates.append(", "label": "new-coordinate-differs-from-all-earlier",
+     "do": [f"assert atom == named_atom(residue, atom_name) and 0 <= first_idx(residue, atom_name) and first_idx(residue, atom_name) < len(residue.atoms) and residue == {_S}[a]",
+            f"assert forall(lambda k: implies(0 <= k and k < len(coordinates), GA[k] != a or first_idx({_S}[GA[k]], GN[k]) != first_idx(residue, atom_name)), pats=['GA[k]'])",
+            f"forall k | assert implies(0 <= k and k < len(coordinates), {_ROW('k')} and (GA[k] != a or first_idx({_S}[GA[k]], GN[k]) != first_idx(residue, atom_name)))"
+            f" | assert in_model({_S}[a], model) and 0 <= a and a < len({_S})"
+            f" | assert implies(0 <= k and k < len(coordinates), xyz_of({_S}[GA[k]].atoms[first_idx({_S}[GA[k]], GN[k])]) != xyz_of({_S}[a].atoms[first_idx({_S}[a], atom_name)]))"
+            " | assert implies(0 <= k and k < len(coordinates), coordinates[k] != xyz)"]},
+    {"when": "after", "at": "coordinates.append(", "label": "record-row",
+     "do": ["let GA = snoc(GA, a)", "let GN = snoc(GN, atom_name)", "let GQ = snoc(GQ, kk)"]},
+]
+
+
+class find_pairs_table(_FindPairsBase):
+    """Ghost state: GA[k] = position in structure.residues of the residue of row k, GN[k] = its atom name, GQ[k] = position of
+    that name among the names iterated for the residue."""
+    stop_before = "kdtree = KDTree("
+    requires = [REQ_DISTINCT]
+    raises = []
+    loops = {
+        0: {"index": "a", "labels": _T_LAB, "inv": [_T_LEN, _T_ROWS0, _T_MAPS, _T_ORDER, _T_DISTXYZ, _T_ONCE]},
+        1: {"index": "kk", "elems": "ORD", "labels": _T_LAB, "inv": [_T_LEN, _T_ROWS1, _T_MAPS, _T_ORDER, _T_DISTXYZ, _T_ONCE]},
+    }
+    ghost = list(_TABLE_GHOST)
+    stop_ensures = [
+        f"len(GA) == len(coordinates) and len(GN) == len(coordinates) and forall(lambda k: implies(0 <= k and k < len(coordinates), {_ROW('k')}))",
+        "forall(lambda k, w: implies(0 <= k and k < w and w < len(coordinates), not (GA[k] == GA[w] and GN[k] == GN[w])))",
+        "forall(lambda k, w: implies(0 <= k and k < w and w < len(coordinates), coordinates[k] != coordinates[w]))",
+    ]
+    stop_ensures_labels = {0: "every-row-is-a-listed-atom-of-a-residue-of-the-model", 1: "distinct-rows-are-distinct-(residue,atom)-pairs",
+                           2: "distinct-rows-have-distinct-coordinates"}
+
+
+# ---------------------------------------------------------------------------------------------------------------------
+# PHASE 3 (contact classification loop over the sorted KD-tree pair set)
+# ---------------------------------------------------------------------------------------------------------------------
+LEMMAS["sumsq_pos"] = AC.LEMMAS["sumsq_pos"]
+
+
+@spec
+def ratom(S, GA, GN, k):
+    """the atom of table row k"""
+    return named_atom(S[GA[k]], GN[k])
+
+
+@spec
+def sqd(P, Q):
+    """squared Euclidean distance of two points (the uninterpreted function shared with the KD-tree contract)"""
+    return sqdist(P[0], P[1], P[2], Q[0], Q[1], Q[2])
+
+
+@spec
+def same_res_id(x, y):
+    """the library's same-residue test on two atoms: equal label identifiers, or equal auth identifiers (None never matches)"""
+    return ((not is_none(x.label) and x.label == y.label) or (not is_none(x.auth) and x.auth == y.auth))
+
+
+@spec
+def hvec(x, y):
+    """the contact vector, from atom y to atom x"""
+    return vec(x.x - y.x, x.y - y.y, x.z - y.z)
+
+
+@spec
+def off_normal(r, x, y, e):
+    """the contact direction lies more than ANG_LO - e and less than ANG_HI + e degrees off the base normal of residue r"""
+    return (not is_none(r.base_normal_vector) and ANG_LO - e < ang(some(r.base_normal_vector), hvec(x, y))
+            and ang(some(r.base_normal_vector), hvec(x, y)) < ANG_HI + e)
+
+
+@spec
+def donor_acceptor(S, GA, GN, i, j):
+    """one row is an acceptor atom, the other a donor atom that is not also an acceptor name (pinned tables)"""
+    return ((is_acc(S[GA[i]], GN[i]) and not is_acc(S[GA[j]], GN[j]) and is_don(S[GA[j]], GN[j]))
+            or (is_acc(S[GA[j]], GN[j]) and not is_acc(S[GA[i]], GN[i]) and is_don(S[GA[i]], GN[i])))
+
+
+@spec
+def near(coordinates, i, j):
+    return 0 <= i and i < j and j < len(coordinates) and sqd(coordinates[i], coordinates[j]) <= D_HB * D_HB
+
+
+@spec
+def backbone_oxygen(n):
+    return n in PHOSPHATE_OX or n in RIBOSE_OX
+
+
+@spec
+def contact(S, GA, GN, coordinates, i, j, e):
+    """rows i < j are a donor-acceptor contact of two different residues within D_HB whose direction lies (ANG_LO - e, ANG_HI + e)
+    degrees off both base normals; e = +EPS: may be one, e = -EPS: definitely is one"""
+    return (near(coordinates, i, j) and donor_acceptor(S, GA, GN, i, j) and not same_res_id(ratom(S, GA, GN, i), ratom(S, GA, GN, j))
+            and off_normal(S[GA[i]], ratom(S, GA, GN, i), ratom(S, GA, GN, j), e) and off_normal(S[GA[j]], ratom(S, GA, GN, i), ratom(S, GA, GN, j), e))
+
+
+@spec
+def hb_is(hb, S, GA, GN, i, j):
+    return hb[0] == ratom(S, GA, GN, i) and hb[1] == ratom(S, GA, GN, j) and hb[2] == S[GA[i]] and hb[3] == S[GA[j]]
+
+
+# atoms carry the identifiers of their residue, and a residue has at least one identifier (how the library's readers build residues)
+REQ_IDS = (f"forall(lambda a, p: implies(0 <= a and a < len({_S}) and 0 <= p and p < len({_S}[a].atoms), "
+           f"{_S}[a].atoms[p].label == {_S}[a].label and {_S}[a].atoms[p].auth == {_S}[a].auth "
+           f"and not (is_none({_S}[a].label) and is_none({_S}[a].auth))), pats=['ident({_S}[a].atoms[p])'])")
+# Atom.coordinates is the cached property numpy.array([x, y, z])
+REQ_COORDS = "forall(lambda x: x.coordinates == vec(x.x, x.y, x.z), sorts={'x': 'Atom'})"
+# an existing base normal is a non-zero vector (tertiary.py returns a unit vector; NaN for collinear atoms is outside A-real)
+REQ_NORMAL = ("forall(lambda r: implies(not is_none(r.base_normal_vector), dot3(some(r.base_normal_vector), some(r.base_normal_vector)) > 0), "
+              "sorts={'r': 'Residue3D'})")
+_TBL = f"{_S}, GA, GN"
+_ALLROWS = f"forall(lambda k: implies(0 <= k and k < len(coordinates), {_ROW('k')}), pats=['GA[k]'])"
+_H_LEN = "0 <= len(hydrogen_bonds) and len(SRC2) == len(hydrogen_bonds) and len(POS2) == w"
+_H_SOUND = (f"forall(lambda h: implies(0 <= h and h < len(hydrogen_bonds), 0 <= SRC2[h] and SRC2[h] < w and POS2[SRC2[h]] == h "
+            f"and hb_is(hydrogen_bonds[h], {_TBL}, EN[SRC2[h]][0], EN[SRC2[h]][1]) and contact({_TBL}, coordinates, EN[SRC2[h]][0], EN[SRC2[h]][1], EPS)), pats=['SRC2[h]'])")
+_H_INCR = "forall(lambda h, g: implies(0 <= h and h < g and g < len(hydrogen_bonds), SRC2[h] < SRC2[g]), pats=[['SRC2[h]', 'SRC2[g]']])"
+_H_COMPLETE = (f"forall(lambda u: implies(0 <= u and u < w, (POS2[u] == 0 - 1 or (0 <= POS2[u] and POS2[u] < len(hydrogen_bonds) and SRC2[POS2[u]] == u)) "
+               f"and implies(contact({_TBL}, coordinates, EN[u][0], EN[u][1], 0 - EPS) and not backbone_oxygen(GN[EN[u][0]]) and not backbone_oxygen(GN[EN[u][1]]), "
+               f"0 <= POS2[u])), pats=['POS2[u]'])")
+_H_LAB = {0: "lengths", 1: "every-recorded-hydrogen-bond-is-a-contact", 2: "recorded-in-enumeration-order",
+          3: "every-definite-base-to-base-contact-is-recorded"}
+
+
+_CT = f"(contact({_TBL}, coordinates, i, j, 0 - EPS) and not backbone_oxygen(GN[i]) and not backbone_oxygen(GN[j]))"
+
+
+class find_pairs_contacts(_FindPairsBase):
+    """Ghost state: GA/GN/GQ as in find_pairs@table; EN = the list sorted(kdtree.query_pairs(..)); SRC2[h] = position in EN of the
+    index pair from which hydrogen_bonds[h] was made; POS2[u] = position in hydrogen_bonds of what step u appended (-1: nothing)."""
+    stop_before = "labels = []"
+    requires = [REQ_DISTINCT, REQ_IDS, REQ_COORDS, REQ_NORMAL]
+    raises = ANY_EXC
+    loops = {
+        0: {"index": "a", "labels": _T_LAB, "inv": [_T_LEN, _T_ROWS0, _T_MAPS, _T_ORDER, _T_DISTXYZ]},
+        1: {"index": "kk", "elems": "ORD", "labels": _T_LAB, "inv": [_T_LEN, _T_ROWS1, _T_MAPS, _T_ORDER, _T_DISTXYZ]},
+        2: {"index": "w", "iter": "EN", "labels": _H_LAB, "inv": [_H_LEN, _H_SOUND, _H_INCR, _H_COMPLETE]},
+    }
+    ghost = list(_TABLE_GHOST) + [
+        {"when": "after", "at": "hydrogen_bonds = []", "label": "ghost-init2", "do": ["let SRC2 = empty('list[int]')", "let POS2 = empty('list[int]')"]},
+        {"when": "after", "at": "atom_j = coordinates_atom_map", "label": "pair-of-step",
+         "do": [f"assert 0 <= i and i < j and j < len(coordinates) and sqd(coordinates[i], coordinates[j]) <= D_HB * D_HB",
+                f"assert {_ROW('i')} and {_ROW('j')}",
+                f"assert atom_i == ratom({_TBL}, i) and atom_j == ratom({_TBL}, j) "
+                f"and (type_i == type_j) == (is_acc({_S}[GA[i]], GN[i]) == is_acc({_S}[GA[j]], GN[j]))"]},
+        {"when": "after", "at": "residue_j = coordinates_residue_map", "label": "residues-of-step",
+         "do": [f"assert residue_i == {_S}[GA[i]] and residue_j == {_S}[GA[j]]"]},
+        {"when": "before", "at": "continue", "loop": 2, "label": "a-skipped-pair-is-not-a-definite-base-to-base-contact",
+         "do": [f"assert not (contact({_TBL}, coordinates, i, j, 0 - EPS) and not backbone_oxygen(GN[i]) and not backbone_oxygen(GN[j]))",
+                "let POS2 = snoc(POS2, 0 - 1)"]},
+        {"when": "after", "at": "vector = ", "label": "contact-vector-is-not-zero",
+         "do": ["assert vector[0] != 0 or vector[1] != 0 or vector[2] != 0", "use sumsq_pos(vector[0], vector[1], vector[2])",
+                "assert vector == hvec(atom_i, atom_j)"]},
+        {"when": "after", "at": "angle2 = ", "label": "angles-are-the-angles-off-the-base-normals",
+         "do": ["assert angle1 == ang(some(residue_i.base_normal_vector), hvec(atom_i, atom_j)) and angle2 == ang(some(residue_j.base_normal_vector), hvec(atom_i, atom_j))"]},
+        {"when": "before", "at": "if HYDROGEN_BOND_ANGLE_RANGE[0] < angle1", "label": "ghost-step", "do": ["let POS2 = snoc(POS2, 0 - 1)"]},
+        {"when": "after", "at": "hydrogen_bonds.append(", "label": "a-recorded-pair-is-a-contact",
+         "do": [f"assert contact({_TBL}, coordinates, i, j, EPS)", "let SRC2 = snoc(SRC2, w)", "let POS2 = upd(POS2, w, len(hydrogen_bonds) - 1)"]},
+        {"when": "after", "at": "if HYDROGEN_BOND_ANGLE_RANGE[0] < angle1", "label": "a-pair-failing-the-angle-test-is-not-a-definite-contact",
+         "do": [f"assert implies(POS2[w] == 0 - 1, not contact({_TBL}, coordinates, i, j, 0 - EPS))"]},
+        {"when": "before", "at": "labels = []", "label": "completeness-witness", "do": [
+            f"forall i, j | assert implies({_CT}, (i, j) in kdtree.query_pairs(D_HB) and 0 <= SORTED_POS[i, j] and SORTED_POS[i, j] < len(EN) "
+            f"and EN[SORTED_POS[i, j]][0] == i and EN[SORTED_POS[i, j]][1] == j)"
+            f" | assert implies({_CT}, 0 <= POS2[SORTED_POS[i, j]] and POS2[SORTED_POS[i, j]] < len(hydrogen_bonds) and SRC2[POS2[SORTED_POS[i, j]]] == SORTED_POS[i, j])"
+            f" | assert implies({_CT}, hb_is(hydrogen_bonds[POS2[SORTED_POS[i, j]]], {_TBL}, i, j))"
+            f" | assert implies({_CT}, exists(lambda h: 0 <= h and h < len(hydrogen_bonds) and hb_is(hydrogen_bonds[h], {_TBL}, i, j)))"]},
+    ]
+    stop_ensures = [
+        f"len(SRC2) == len(hydrogen_bonds) and forall(lambda h: implies(0 <= h and h < len(hydrogen_bonds), 0 <= SRC2[h] and SRC2[h] < len(EN) "
+        f"and (EN[SRC2[h]][0], EN[SRC2[h]][1]) in kdtree.query_pairs(D_HB) "
+        f"and hb_is(hydrogen_bonds[h], {_TBL}, EN[SRC2[h]][0], EN[SRC2[h]][1]) and contact({_TBL}, coordinates, EN[SRC2[h]][0], EN[SRC2[h]][1], EPS)))",
+        "forall(lambda h, g: implies(0 <= h and h < g and g < len(hydrogen_bonds), EN[SRC2[h]][0] != EN[SRC2[g]][0] or EN[SRC2[h]][1] != EN[SRC2[g]][1]))",
+        f"forall(lambda i, j: implies(contact({_TBL}, coordinates, i, j, 0 - EPS) and not backbone_oxygen(GN[i]) and not backbone_oxygen(GN[j]), "
+        f"exists(lambda h: 0 <= h and h < len(hydrogen_bonds) and hb_is(hydrogen_bonds[h], {_TBL}, i, j))))",
+    ]
+    stop_ensures_labels = {0: "every-recorded-hydrogen-bond-is-a-donor-acceptor-contact-within-4A-off-both-normals",
+                           1: "two-recorded-hydrogen-bonds-are-two-different-row-pairs",
+                           2: "every-definite-base-to-base-contact-is-recorded"}
+
+
 CONTRACTS = {
     "Residue3D.find_atom": AC.find_atom_c,
     "Residue3D.__lt__": AC.res_lt_c,
     "angle_between_vectors": AC.angle_c,
     "detect_bph_br_classification": AC.detect_bph_br_c,
-    "detect_bph_br_classification@any": bph_any,
-    "angle_between_vectors@any": angle_any,
+    "angle_between_vectors@total": angle_total,
     "detect_cis_trans": detect_cis_trans_c,
-    "detect_cis_trans@any": cis_trans_any,
     "find_pairs@greedy": find_pairs_greedy,
+    "find_pairs@table": find_pairs_table,
+    "find_pairs@contacts": find_pairs_contacts,
+    "find_pairs@labels": find_pairs_labels,
+    "find_pairs@labels_complete": find_pairs_labels_complete,
 }
